@@ -24,6 +24,8 @@ type Input struct {
 	Known   []string `json:"known"`    // signatures of known findings (suppressed, counted)
 	Replay  *Case    `json:"replay,omitempty"`
 	List    bool     `json:"list,omitempty"` // only list registrations
+	Focus   string   `json:"focus,omitempty"` // debugging aid: ignore candidates whose signature does not contain this text
+	Triage  bool     `json:"triage,omitempty"` // list every distinct candidate signature, do not stop (never used by registered commands)
 }
 
 type Found struct {
@@ -49,6 +51,7 @@ type Output struct {
 	Unrepro     int            `json:"unreproduced"`
 	Trouble     string         `json:"trouble,omitempty"`
 	WallS       float64        `json:"wall_s"`
+	Candidates  []Violation    `json:"candidates,omitempty"`
 }
 
 func h64(parts ...string) uint64 {
@@ -373,6 +376,16 @@ func Main(all []Registration) {
 		}
 		if known[v.Sig()] {
 			out.KnownSeen[v.Sig()]++
+			continue
+		}
+		if in.Focus != "" && !strings.Contains(v.Sig(), in.Focus) {
+			continue
+		}
+		if in.Triage {
+			if !known["\x00"+v.Sig()] && len(out.Candidates) < 60 {
+				known["\x00"+v.Sig()] = true
+				out.Candidates = append(out.Candidates, *v)
+			}
 			continue
 		}
 		// candidate: must reproduce from its case data
